@@ -11,6 +11,8 @@ import (
 
 func init() {
 	register("C06", func(c *core.Ctx, tier string) {
+		accessorAgreement(c, "C06.8")
+		constructorChain(c, "C06.9")
 		c06OpenFields(c)
 		c06Order(c)
 		c06InitialPacket(c)
